@@ -36,6 +36,27 @@ def oracle_pr(ck, b, s, J, x, o=2, ri=-1):
     return None
 
 
+def oracle_reuse(ck, b, s, J, shapes):
+    """several forward calls on ONE module instance, inverted afterwards in a different order:
+    results are values - a later call must not change an earlier result"""
+    import torch
+    from pytorch_wavelets import DTCWTForward, DTCWTInverse
+    from ..impl_dwt import T, N as NP
+    fwd = DTCWTForward(biort=b, qshift=s, J=J); inv = DTCWTInverse(biort=b, qshift=s)
+    xs = [T(gen.float_tensor(ck.nprng, sh)) for sh in shapes]
+    desc = 'DTCWT PR %s/%s J=%d, %d forward calls on one module before inverting (shapes %s)' % (b, s, J, len(xs), [tuple(sh) for sh in shapes])
+    replay = {'oracle': 'reuse', 'b': b, 's': s, 'J': J, 'shapes': [list(sh) for sh in shapes]}
+    with torch.no_grad():
+        cs = [fwd(x) for x in xs]
+        for k in reversed(range(len(xs))):
+            y = inv(cs[k])
+            H, W = xs[k].shape[-2:]
+            if tuple(y.shape[-2:]) != (H + H % 2, W + W % 2) or float((y[..., :H, :W] - xs[k]).abs().max()) > 1e-7 * max(1.0, float(xs[k].abs().max())):
+                ck.fail(desc + ': the pyramid returned by call %d no longer reconstructs its input' % (k + 1), replay); return 'diff'
+    ck.oracle_ok(('reuse', b, s, J, tuple(map(tuple, shapes))), group='reuse', sample={'what': desc})
+    return None
+
+
 def oracle(ck, extended):
     rng = ck.rng
     q = ck.tier == 'quick'
@@ -45,7 +66,13 @@ def oracle(ck, extended):
         H = rng.randint(2, 44); W = rng.randint(2, 44)
         x = gen.float_tensor(ck.nprng, (rng.randint(1, 2), rng.randint(1, 2), H, W), rng.choice([1.0, 1e3]))
         o, ri = (2, -1) if rng.random() < 0.7 else rng.choice(LAYOUTS)
-        oracle_pr(ck, b, s, J, x, o, ri)
+        rt.guard(ck, oracle_pr, ck, b, s, J, x, o, ri)
+    for _ in range(3 if q else 20):
+        b, s = rng.choice(pairs); J = rng.randint(1, 3)
+        shapes = [(1, rng.randint(1, 2), rng.randint(4, 24), rng.randint(4, 24)) for _ in range(rng.randint(2, 3))]
+        if rng.random() < 0.5:
+            shapes = [shapes[0]] * len(shapes)
+        rt.guard(ck, oracle_reuse, ck, b, s, J, shapes)
 
 
 def run(ck):
@@ -61,7 +88,10 @@ def replay(ck, path):
     if not f:
         print('replay file names no failing input: %s' % d.get('broken_obligations'))
         return 1
-    oracle_pr(ck, f['b'], f['s'], f['J'], arr_from(f['x']), f['o'], f['ri'])
+    if f['oracle'] == 'reuse':
+        oracle_reuse(ck, f['b'], f['s'], f['J'], [tuple(sh) for sh in f['shapes']])
+    else:
+        oracle_pr(ck, f['b'], f['s'], f['J'], arr_from(f['x']), f['o'], f['ri'])
     for fl in ck.failures:
         print('REPLAY-FAILS: ' + fl['desc'])
     if not ck.failures:
